@@ -1159,7 +1159,7 @@ class CodeBuilder:
             if isinstance(lhs, str):
                 lhs = parse(lhs)
             if isinstance(rhs, str):
-                rhs = parse(lhs)
+                rhs = parse(rhs)
 
             from pymbolic.primitives import Comparison
             condition = Comparison(lhs, cond, rhs)
